@@ -181,6 +181,10 @@ def streams(ctx):
     ctx.run_cases(FAULT, "every-prefix-of-valid-state-replies", pref, exhaustive=True, sample_every=90)
     hs = _histories(rng, ctx.n(150, 3000))
     ctx.run_cases(HIST, "fault-after-a-successful-operation-on-the-same-connection", hs, exhaustive=False, sample_every=max(1, len(hs) // 3))
+    # the same kind of history against a device that takes 0.5 s .. 2 min over some replies (virtual loop clock): a reply that is late is
+    # still that reply - never an error by itself, never somebody else's success
+    slow = [HH.with_slow_replies(rng, h) for h in _histories(rng, ctx.n(60, 1200))]
+    ctx.run_cases(HIST, "faults-and-a-device-that-is-slow-to-answer-under-a-virtual-clock", slow, exhaustive=False, sample_every=max(1, len(slow) // 3))
 
 
 def search(ctx, broken):
